@@ -580,12 +580,16 @@ class CurveEngine:
             if (a.weights is not None or b.weights is not None) and (max(a.degree, b.degree) > 2 or max(a.npts, b.npts) > 5):
                 return None, None, False, kind
             inv = list(M.Fr(x) for x in a.knotvector.limits) != list(M.Fr(x) for x in b.knotvector.limits)
+            if rng.random() < 0.3:
+                return (lambda: a.fit(b)), a, inv, "fit(curve)"
             return (lambda: a.fit_curve(b)), a, inv, "fit_curve"
         if kind == "fit_points":
             n = a.npts
             m = n - 1 if (faulty and n > 1) else n + rng.randint(0, 3)
             pts = [self.mkpoint([rng.randint(-9, 9), rng.randint(-9, 9)]) for _ in range(m)]
             self.remember(pts)
+            if rng.random() < 0.3:
+                return (lambda: a.fit(pts)), a, m < n, "fit(points)"
             return (lambda: a.fit_points(pts)), a, m < n, "fit_points"
         if kind == "fit_function":
             calls = [0]
@@ -603,6 +607,8 @@ class CurveEngine:
                 except (TypeError, ValueError):
                     x = Fraction(0)
                 return mk([x, 1 - x])
+            if rng.random() < 0.3:
+                return (lambda: a.fit(f)), a, limit is not None, "fit(function)"
             return (lambda: a.fit_function(f)), a, limit is not None, "fit_function"
         # ------------------------------------------------------------------ non-mutating
         if kind == "eval":
